@@ -36,10 +36,14 @@ const (
 	CrashAfter            // call lands, then the client dies
 	deadCall              // call of an already dead client
 	FailConsumed          // writes only: the request body is read completely, nothing lands, error returned
+	FailSlow              // reads only: the request hangs for SlowFailure (fake clock), then fails with a transient error
 )
 
+// SlowFailure is how long a FailSlow request hangs before it fails (a typical request timeout).
+const SlowFailure = 5 * time.Minute
+
 func (d Decision) String() string {
-	return [...]string{"grant", "fail-before", "fail-after", "crash-before", "crash-after", "dead", "fail-after-reading-body"}[d]
+	return [...]string{"grant", "fail-before", "fail-after", "crash-before", "crash-after", "dead", "fail-after-reading-body", "fail-slow"}[d]
 }
 
 // ErrTransient is the injected retryable storage error.
@@ -189,6 +193,9 @@ func (g *GatedStore) gate(op, key string, write bool) Decision {
 func errFor(d Decision) error {
 	switch d {
 	case FailBefore, FailAfter, FailConsumed:
+		return ErrTransient
+	case FailSlow:
+		time.Sleep(SlowFailure)
 		return ErrTransient
 	default:
 		return ErrDead
